@@ -204,3 +204,14 @@ def run_many(jobs, parallel=16):
     with ThreadPoolExecutor(max_workers=parallel) as ex:
         futs = [ex.submit(run, **j) for j in jobs]
         return [f.result() for f in futs]
+
+
+def run_many_safe(jobs, parallel=16):
+    """Like run_many, but a job that makes TLC fail yields the TLCError instead of raising."""
+    def one(j):
+        try:
+            return run(**j)
+        except TLCError as ex:
+            return ex
+    with ThreadPoolExecutor(max_workers=parallel) as ex:
+        return list(ex.map(one, jobs))
